@@ -412,3 +412,21 @@ Definition reads_as (cfg : lexcfg) (text : string) (e : sexp) : Prop :=
 (* the same for terms: what print_term's output has to denote *)
 Definition sym_sexp (v : variant) (env : list symdecl) (d : symdecl) (qualified : bool) : sexp :=
   if qualified then SList [SAtom (TRes "as"); sym_tok (sd_name d); sort_sexp (sd_ret d)] else sym_tok (sd_name d).
+
+(* what a printed term has to denote: a nullary uninterpreted symbol that is overloaded (or carries the
+   abstract-value prefix) can only be identified together with its sort *)
+Definition needs_qualification (env : list symdecl) (d : symdecl) : bool :=
+  sd_nullary d && negb (sd_interp d) && (negb (isKnownToUser (sd_name d)) || is_ambiguous env (sd_name d)).
+
+Definition num_sexp (neg : bool) (num : string) : sexp :=
+  if neg then SList [sym_tok "-"; SAtom (TNum num)] else SAtom (TNum num).
+
+Fixpoint term_sexp (env : list symdecl) (t : term) : sexp :=
+  match t with
+  | TApp d [] =>
+    if needs_qualification env d then SList [SAtom (TRes "as"); sym_tok (sd_name d); sort_sexp (sd_ret d)]
+    else sym_tok (sd_name d)
+  | TApp d args => SList (sym_tok (sd_name d) :: map (term_sexp env) args)
+  | TNumC neg num None => num_sexp neg num
+  | TNumC neg num (Some den) => SList [sym_tok "/"; num_sexp neg num; SAtom (TNum den)]
+  end.
